@@ -231,7 +231,8 @@ def handle (j : Json) : M Json := do
       pure (Json.mkObj [("bnds", Json.arr ((Poly.tighten p).map bndJ).toArray)])
   | "row_bounds" => do
       let p ← parsePoly (← fld j "p")
-      pure (Json.mkObj [("bnds", Json.arr ((Poly.rowBounds p).map bndJ).toArray), ("ncomb", intsJ (Poly.nRowComb p))])
+      pure (Json.mkObj [("bnds", Json.arr ((Poly.rowBounds p).map bndJ).toArray), ("ncomb", intsJ (Poly.nRowComb p)),
+                        ("amin", Json.arr ((Poly.aMin p).map intsJ).toArray), ("amax", Json.arr ((Poly.aMax p).map intsJ).toArray)])
   | "red" => do
       let p ← parsePoly (← fld j "p")
       pure (Json.mkObj [("rows", boolsJ (Poly.redRows p)), ("cols", optsJ (Poly.redCols p))])
